@@ -79,6 +79,8 @@ def run_segments(ss, splits, log):
             continue
         ss.TDS.config.tf = tf
         rets.append(bool(ss.TDS.run(no_summary=True)))
+        # a user looks at the stored series between segments (composite accessors included)
+        _ = (ss.dae.ts.xy.shape, ss.dae.ts.txyz.shape)
     return rets
 
 
@@ -94,6 +96,15 @@ def compare(out_bad, ref, got, splits, mode, events):
         where = 'split_at_event' if any(abs(s - e) < 2 * EPS for s in splits for e in events) else 'split_elsewhere'
         out_bad(f'event_{kind}:{tag}:{where}', f'splits {splits}: events missing {missing}, extra {extra}')
     t = got['t']
+    sr = got.get('series')
+    if sr is not None:
+        # every view of the stored series covers the whole (resumed) run and ends with the final state
+        if len({sr['n_t'], sr['n_x'], sr['n_y'], sr['n_xy'], sr['n_txyz']}) != 1:
+            out_bad(f'stored_series_views_disagree:{tag}', f'splits {splits}: rows t/x/y/xy/txyz = {sr["n_t"]}/{sr["n_x"]}/{sr["n_y"]}/'
+                                                            f'{sr["n_xy"]}/{sr["n_txyz"]}')
+        elif sr['last_xy'] is not None and (not np.array_equal(sr['last_xy'], got['xy']) or sr['last_t'] != float(t[-1])):
+            out_bad(f'stored_series_does_not_end_with_final_state:{tag}', f'splits {splits}: last row of ts.xy / ts.txyz is not the '
+                                                                          f'final state / time')
     d = np.diff(t)
     if len(d) and np.min(d) <= 0:
         i = int(np.argmin(d))
@@ -172,8 +183,12 @@ class Extend(Part):
         log = []
         instrument(ss, log)
         rets = run_segments(ss, splits, log)
-        return dict(rets=rets, log=list(log), t=np.array([float(x) for x in ss.dae.ts.t]),
-                    xy=np.concatenate([ss.dae.x, ss.dae.y]).copy())
+        ts = ss.dae.ts
+        return dict(rets=rets, log=list(log), t=np.array([float(x) for x in ts.t]),
+                    xy=np.concatenate([ss.dae.x, ss.dae.y]).copy(),
+                    series=dict(n_t=len(ts.t), n_x=len(ts.x), n_y=len(ts.y), n_xy=len(ts.xy), n_txyz=len(ts.txyz),
+                                last_xy=np.array(ts.xy[-1]).copy() if len(ts.xy) else None,
+                                last_t=float(ts.txyz[-1][0]) if len(ts.txyz) else None))
 
     def execute(self, case):
         out = Outcome()
